@@ -112,6 +112,14 @@ type Gen struct {
 	escaping map[*ssa.Alloc]bool
 	discovery bool // pass 1: discover loop write sets
 	curBlock *ssa.BasicBlock
+	blockStack []*ssa.BasicBlock
+	rootFn   *ssa.Function
+	inlineDepth int
+	inlineRets *[]inlineRet
+	p1Write  map[*ssa.BasicBlock]map[string]bool
+	p1WriteAll map[*ssa.BasicBlock]bool
+	p1Ghost  map[*ssa.BasicBlock]map[string]bool
+	p1Alloc  map[*ssa.BasicBlock]bool
 	writeLog map[*ssa.BasicBlock]map[string]bool
 	writeAll map[*ssa.BasicBlock]bool
 	ghostLog map[*ssa.BasicBlock]map[string]bool
@@ -127,6 +135,7 @@ type Gen struct {
 	unsupportedMsgs []string
 	localNames map[string][]*ssa.Alloc
 	calleeUse map[*CalleeSpec]int
+	assertUse map[*Clause]int
 	incoming map[*ssa.BasicBlock][]edge
 }
 
@@ -191,16 +200,37 @@ func (g *Gen) note(kind, what string) {
 	g.abstractions = append(g.abstractions, abstraction{kind, what, g.posStr(g.curPos)})
 }
 
+// logBlocks: the current block plus the call-site blocks of every enclosing inlined call.
+func (g *Gen) logBlocks() []*ssa.BasicBlock {
+	var out []*ssa.BasicBlock
+	if g.curBlock != nil {
+		out = append(out, g.curBlock)
+	}
+	return append(out, g.blockStack...)
+}
+
 func (g *Gen) noteWrite(key string) {
-	if g.curBlock == nil {
-		return
+	for _, b := range g.logBlocks() {
+		m := g.writeLog[b]
+		if m == nil {
+			m = map[string]bool{}
+			g.writeLog[b] = m
+		}
+		m[key] = true
 	}
-	m := g.writeLog[g.curBlock]
-	if m == nil {
-		m = map[string]bool{}
-		g.writeLog[g.curBlock] = m
+}
+
+func (g *Gen) noteAlloc() {
+	for _, b := range g.logBlocks() {
+		g.allocLog[b] = true
 	}
-	m[key] = true
+}
+
+func (g *Gen) noteWriteAll() {
+	for _, b := range g.logBlocks() {
+		g.writeAll[b] = true
+		g.allocLog[b] = true
+	}
 }
 
 // oblige records a proof obligation `goal` at the current point and assumes it afterwards.
@@ -209,7 +239,7 @@ func (g *Gen) oblige(st *State, kind, clauseID, desc, goal string) {
 		g.assume(st, goal)
 		return
 	}
-	fnName := g.fn.RelString(g.fn.Pkg.Pkg)
+	fnName := g.rootFn.RelString(g.rootFn.Pkg.Pkg)
 	pos := g.posStr(g.curPos)
 	site := fmt.Sprintf("%s/%s@%s", fnName, kind, pos)
 	g.oblCount[site]++
@@ -245,6 +275,7 @@ func (g *Gen) run() (err error) {
 	// pass 1: discover what each loop writes
 	g.discovery = true
 	g.execAll()
+	g.p1Write, g.p1WriteAll, g.p1Ghost, g.p1Alloc = g.writeLog, g.writeAll, g.ghostLog, g.allocLog
 	g.summariseLoops()
 	// pass 2: the real thing
 	g.discovery = false
@@ -267,6 +298,7 @@ func (g *Gen) reset() {
 	g.ghostLog = map[*ssa.BasicBlock]map[string]bool{}
 	g.allocLog = map[*ssa.BasicBlock]bool{}
 	g.calleeUse = map[*CalleeSpec]int{}
+	g.assertUse = map[*Clause]int{}
 	g.trustedUsed = map[string]bool{}
 }
 
@@ -415,16 +447,16 @@ func (g *Gen) summariseLoops() {
 		li.heapKeys = map[string]bool{}
 		li.ghosts = map[string]bool{}
 		for bb := range li.body {
-			for k := range g.writeLog[bb] {
+			for k := range g.p1Write[bb] {
 				li.heapKeys[k] = true
 			}
-			if g.writeAll[bb] {
+			if g.p1WriteAll[bb] {
 				li.allHeaps = true
 			}
-			for k := range g.ghostLog[bb] {
+			for k := range g.p1Ghost[bb] {
 				li.ghosts[k] = true
 			}
-			if g.allocLog[bb] {
+			if g.p1Alloc[bb] {
 				li.allocates = true
 			}
 		}
@@ -492,6 +524,9 @@ func (g *Gen) execAll() {
 		// frame
 		g.frameOn = false
 		g.frame = nil
+		if g.spec.Pure && g.spec.Modifies == nil {
+			g.frameOn = true
+		}
 		if g.spec.Modifies != nil {
 			g.frameOn = true
 			for _, it := range g.spec.Modifies.Items {
@@ -510,7 +545,12 @@ func (g *Gen) execAll() {
 	if len(fn.Blocks) == 0 {
 		return
 	}
-	// topological order of the DAG without back edges
+	g.runBlocks(st)
+}
+
+// runBlocks executes the loop-cut DAG of g.fn starting from st.
+func (g *Gen) runBlocks(st *State) {
+	fn := g.fn
 	order := g.topo()
 	g.incoming = map[*ssa.BasicBlock][]edge{}
 	g.incoming[fn.Blocks[0]] = []edge{{nil, st, st.pc}}
@@ -528,6 +568,99 @@ func (g *Gen) execAll() {
 		}
 		g.execBlock(b, cur)
 	}
+}
+
+type inlineRet struct {
+	st      *State
+	results []Val
+}
+
+// inlineCall symbolically executes the body of fn (a closure or a function marked inline) in place.
+func (g *Gen) inlineCall(st *State, fn *ssa.Function, args []Val, binds []Val, rt types.Type) Val {
+	if g.inlineDepth >= 4 {
+		g.unsupported("inlining too deep at " + fn.String())
+	}
+	if len(fn.Blocks) == 0 {
+		g.unsupported("cannot inline body-less function " + fn.String())
+	}
+	// save context
+	sFn, sSpec, sLoops, sEsc, sNames, sInc, sBlk, sRets, sPV, sPos := g.fn, g.spec, g.loops, g.escaping, g.localNames, g.incoming, g.curBlock, g.inlineRets, g.paramVals, g.curPos
+	sStack := g.blockStack
+	if g.curBlock != nil {
+		g.blockStack = append(append([]*ssa.BasicBlock(nil), g.blockStack...), g.curBlock)
+	}
+	callerDefers := st.defers
+	st.defers = nil
+	g.inlineDepth++
+	g.fn = fn
+	g.spec = g.W.specFor(fn)
+	g.findLoops()
+	g.findEscaping()
+	if !g.discovery {
+		g.summariseLoops()
+	}
+	g.paramVals = map[string]Val{}
+	for i, p := range fn.Params {
+		if i < len(args) {
+			g.regs[p] = args[i]
+			g.paramVals[p.Name()] = args[i]
+		}
+	}
+	for i, fv := range fn.FreeVars {
+		if i < len(binds) {
+			g.regs[fv] = binds[i]
+			g.paramVals[fv.Name()] = binds[i]
+		}
+	}
+	var rets []inlineRet
+	g.inlineRets = &rets
+	start := st.clone()
+	g.runBlocks(start)
+	// restore
+	g.fn, g.spec, g.loops, g.escaping, g.localNames, g.incoming, g.curBlock, g.inlineRets, g.paramVals, g.curPos = sFn, sSpec, sLoops, sEsc, sNames, sInc, sBlk, sRets, sPV, sPos
+	g.blockStack = sStack
+	g.inlineDepth--
+	var res Val = TupleV{}
+	if len(rets) == 0 {
+		st.pc = "false"
+		if rt != nil {
+			v, _ := g.freshVal(rt, "noret")
+			res = v
+		}
+		st.defers = callerDefers
+		return res
+	}
+	var ins []edge
+	var conds []string
+	for _, r := range rets {
+		ins = append(ins, edge{nil, r.st, r.st.pc})
+		conds = append(conds, r.st.pc)
+	}
+	merged := g.join(nil, ins)
+	*st = *merged
+	st.defers = callerDefers
+	nres := len(rets[0].results)
+	if nres > 0 {
+		sig := fn.Signature.Results()
+		var outs []Val
+		for k := 0; k < nres; k++ {
+			var vals []Val
+			for _, r := range rets {
+				vals = append(vals, r.results[k])
+			}
+			if len(vals) == 1 {
+				outs = append(outs, vals[0])
+			} else {
+				outs = append(outs, g.mergeVals("ret", sig.At(k).Type(), vals, conds))
+			}
+		}
+		if nres == 1 {
+			res = outs[0]
+		} else {
+			res = TupleV{E: outs}
+		}
+	}
+	return res
 }
 
 func (g *Gen) topo() []*ssa.BasicBlock {
@@ -574,7 +707,9 @@ func (g *Gen) join(b *ssa.BasicBlock, ins []edge) *State {
 	if len(ins) == 1 {
 		s := ins[0].st.clone()
 		s.pc = ins[0].cond
-		g.phis(b, ins, s)
+		if b != nil {
+			g.phis(b, ins, s)
+		}
 		return s
 	}
 	res := ins[0].st.clone()
@@ -582,7 +717,11 @@ func (g *Gen) join(b *ssa.BasicBlock, ins []edge) *State {
 	for _, e := range ins {
 		conds = append(conds, e.cond)
 	}
-	res.pc = g.defBool("pc_b"+fmt.Sprint(b.Index), or(conds...))
+	bname := "ret"
+	if b != nil {
+		bname = fmt.Sprint(b.Index)
+	}
+	res.pc = g.defBool("pc_b"+bname, or(conds...))
 	// epoch
 	same := true
 	for _, e := range ins[1:] {
@@ -664,6 +803,9 @@ func (g *Gen) join(b *ssa.BasicBlock, ins []edge) *State {
 	}
 	// defers must agree
 	for _, e := range ins[1:] {
+		if b == nil {
+			break
+		}
 		if len(e.st.defers) != len(ins[0].st.defers) {
 			g.unsupported("conditional defer")
 		}
@@ -673,7 +815,9 @@ func (g *Gen) join(b *ssa.BasicBlock, ins []edge) *State {
 			}
 		}
 	}
-	g.phis(b, ins, res)
+	if b != nil {
+		g.phis(b, ins, res)
+	}
 	return res
 }
 
@@ -739,6 +883,25 @@ func (g *Gen) mergeVals(hint string, t types.Type, vals []Val, conds []string) V
 		}
 		if same && len(f0.Binds) == 0 {
 			return f0
+		}
+		if same {
+			// same closure with textually identical bindings
+			ident := true
+			for _, v := range vals[1:] {
+				f := v.(FuncV)
+				if len(f.Binds) != len(f0.Binds) {
+					ident = false
+					break
+				}
+				for i := range f.Binds {
+					if fmt.Sprint(f.Binds[i]) != fmt.Sprint(f0.Binds[i]) {
+						ident = false
+					}
+				}
+			}
+			if ident {
+				return f0
+			}
 		}
 	}
 	lv := g.leaves(t)
@@ -926,6 +1089,23 @@ func (g *Gen) havocLoop(li *loopInfo, base *State) *State {
 		st.cells[c] = v
 		g.assume(st, inv)
 		g.assume(st, g.allocatedInv(st, v, t))
+		if c.Comment == "rangeindex" {
+			// hidden index of a range loop: starts at -1 and only increments
+			if iv, ok := v.(IntV); ok {
+				g.assume(st, g.le(g.num(-1), iv.T))
+			}
+		}
+	}
+	// phis at a loop head carry values from earlier iterations: unconstrained
+	for _, in := range li.head.Instrs {
+		phi, ok := in.(*ssa.Phi)
+		if !ok {
+			break
+		}
+		v, inv := g.freshVal(phi.Type(), "phi")
+		g.regs[phi] = v
+		g.assume(st, inv)
+		g.assume(st, g.allocatedInv(st, v, phi.Type()))
 	}
 	// held locks: loops that lock/unlock are handled by requiring the same held state (kept)
 	// assume invariants
